@@ -4,13 +4,64 @@
   the previous one, lies inside the file and the Exif length, and fits the reader's window), then the work loop reads
   every value it asks for successfully and each read returns exactly that tag's bytes F[off, off+size).
 -/
-import Imeta.Lemmas.ExifOne
-import Imeta.Lemmas.ExifWalk
+import Imeta.Lemmas.ExifValue
 namespace Imeta.Exif
 open Imeta
 
-/-- every read recorded so far succeeded and returned exactly the bytes of its tag's value in F -/
-def Exact (F : Bytes) (r : R) : Prop := ∀ e ∈ r.reads, e.2 = some (slice F e.1)
+/-- the random-access decoder: one tag, parsed with exactly the bytes it points at -/
+def idealStep (tb : Tables) (F : Bytes) (ex : Rec) (t : Tag) : Outcome Rec := parseTagV tb ex t (slice F t) none
+
+/-- ... and a sequence of tags, in order -/
+def idealRun (tb : Tables) (F : Bytes) : Rec → List Tag → Outcome Rec
+  | ex, [] => .ok ex
+  | ex, t :: ts => idealStep tb F ex t >>= fun ex' => idealRun tb F ex' ts
+
+theorem idealRun_append (tb : Tables) (F : Bytes) (ex : Rec) (l : List Tag) (t : Tag) :
+    idealRun tb F ex (l ++ [t]) = idealRun tb F ex l >>= fun e => idealStep tb F e t := by
+  induction l generalizing ex with
+  | nil =>
+    show (idealStep tb F ex t >>= fun ex' => Outcome.ok ex') = idealStep tb F ex t
+    cases idealStep tb F ex t <;> rfl
+  | cons a l ih =>
+    show (idealStep tb F ex a >>= fun ex' => idealRun tb F ex' (l ++ [t])) =
+      ((idealStep tb F ex a >>= fun ex' => idealRun tb F ex' l) >>= fun e => idealStep tb F e t)
+    cases idealStep tb F ex a with
+    | ok e => exact ih e
+    | err k => rfl
+    | panic p => rfl
+    | fuel => rfl
+
+/-- **Streaming = random access, so far.**  Every read recorded so far succeeded and returned exactly the bytes of its
+tag's value in F, and the record so far is what the random-access decoder makes of the tags parsed so far (from the
+initial record ex0, each tag with exactly its own bytes) -/
+structure Exact (tb : Tables) (ex0 : Rec) (F : Bytes) (r : R) : Prop where
+  reads : ∀ e ∈ r.reads, e.2 = some (slice F e.1)
+  ref : idealRun tb F ex0 r.parsed = .ok r.ex
+
+theorem Exact.transfer {tb : Tables} {ex0 : Rec} {F : Bytes} {r r' : R} (he : Exact tb ex0 F r) (h1 : r'.reads = r.reads)
+    (h2 : r'.ex = r.ex) (h3 : r'.parsed = r.parsed) : Exact tb ex0 F r' :=
+  ⟨by rw [h1]; exact he.reads, by rw [h2, h3]; exact he.ref⟩
+
+theorem Exact.keep {tb : Tables} {ex0 : Rec} {F : Bytes} {r r' : R} (he : Exact tb ex0 F r) (hk : Keep r r') : Exact tb ex0 F r' :=
+  he.transfer hk.reads hk.ex hk.parsed
+
+theorem Exact.init (tb : Tables) (F : Bytes) (r : R) (h1 : r.reads = []) (h2 : r.parsed = []) : Exact tb r.ex F r :=
+  ⟨(by rw [h1]; intro e he; cases he), (by rw [h2]; rfl)⟩
+
+/-- one parse step of the random-access decoder matches the streaming parser whenever the streaming read (if any) returns
+the tag's bytes -/
+theorem parse_step {tb : Tables} {ex0 : Rec} {F : Bytes} {r r1 : R} {t : Tag} (he : Exact tb ex0 F r)
+    (h : parseTag tb r t = .ok r1)
+    (hv : parseTagV tb r.ex t (readTagValue r t).buf (readTagValue r t).err = parseTagV tb r.ex t (slice F t) none) :
+    idealRun tb F ex0 r1.parsed = .ok r1.ex := by
+  obtain ⟨r0, h0, rfl⟩ := parseTag_ok h
+  have hp : r0.parsed = r.parsed := (FrO.parseTag0 tb r t r0 h0).parsed
+  have hval := ValO.parseTag0 tb r t
+  unfold ValO at hval
+  rw [h0, omap_ok, hv] at hval
+  show idealRun tb F ex0 (r0.parsed ++ [t]) = .ok r0.ex
+  rw [hp, idealRun_append, he.ref]
+  exact hval.symm
 
 /-- a forward chain of value tags from position po on -/
 def Chain (F : Bytes) (exl lim : Nat) : Nat → List Tag → Prop
@@ -28,24 +79,25 @@ theorem Chain.mono {F : Bytes} {exl lim : Nat} {p p' : Nat} {q : List Tag} (hp :
 
 /-- one value tag, read forward: the parser leaves a coherent reader at or before the end of the value, and the read
 record stays exact -/
-theorem parseTag_forward {F : Bytes} (tb : Tables) (r r1 : R) (t : Tag) (hc : Coh F r) (he : Exact F r)
+theorem parseTag_forward {F : Bytes} {ex0 : Rec} (tb : Tables) (r r1 : R) (t : Tag) (hc : Coh F r) (he : Exact tb ex0 F r)
     (hfw : r.po ≤ t.off) (hF : t.off + t.size ≤ F.length) (hx : t.off + t.size ≤ r.exifLength) (hlim : t.size ≤ readLimit r)
     (h : parseTag tb r t = .ok r1) :
-    Coh F r1 ∧ Exact F r1 ∧ r1.po ≤ t.off + t.size ∧ r1.tags = r.tags ∧ r1.pos = r.pos ∧
+    Coh F r1 ∧ Exact tb ex0 F r1 ∧ r1.po ≤ t.off + t.size ∧ r1.tags = r.tags ∧ r1.pos = r.pos ∧
     r1.exifLength = r.exifLength ∧ readLimit r1 = readLimit r := by
+  have hx' := readTagValue_exact hc t hfw hF hx hlim
+  have href := parse_step he h (by rw [hx'.2.1, hx'.1])
   rcases OneO.parseTag tb r t r1 h with hs | ⟨hs, _⟩
-  · refine ⟨⟨by rw [hs.rest, hs.po]; exact hc.rest, by rw [hs.po]; exact hc.le, hc.small⟩, ?_, by rw [hs.po]; omega,
+  · refine ⟨⟨by rw [hs.rest, hs.po]; exact hc.rest, by rw [hs.po]; exact hc.le, hc.small⟩, ⟨?_, href⟩, by rw [hs.po]; omega,
       hs.tags, hs.pos, hs.exl, by unfold readLimit; rw [hs.buffered]⟩
-    intro e hm; rw [hs.reads] at hm; exact he e hm
-  · have hx' := readTagValue_exact hc t hfw hF hx hlim
-    have hc' := hc.readTagValue t
+    intro e hm; rw [hs.reads] at hm; exact he.reads e hm
+  · have hc' := hc.readTagValue t
     have hk := Keep.readTagValue0 r t
-    refine ⟨⟨by rw [hs.rest, hs.po]; exact hc'.rest, by rw [hs.po]; exact hc'.le, hc.small⟩, ?_, by rw [hs.po, hx'.2.2.1]; omega,
+    refine ⟨⟨by rw [hs.rest, hs.po]; exact hc'.rest, by rw [hs.po]; exact hc'.le, hc.small⟩, ⟨?_, href⟩, by rw [hs.po, hx'.2.2.1]; omega,
       hs.tags.trans hk.tags, hs.pos.trans hk.pos, hs.exl.trans hk.exl, by unfold readLimit; rw [hs.buffered]; exact congrArg (fun b => if b then bufioSize else scratchSize) hk.buffered⟩
     intro e hm
     rw [hs.reads, hx'.2.2.2] at hm
     rcases List.mem_append.mp hm with hm | hm
-    · exact he e hm
+    · exact he.reads e hm
     · simp only [List.mem_singleton] at hm; rw [hm]
 
 /-- a tag that gives no parser a reason to read (embedded, neither ASCII nor rational) leaves the stream alone -/
@@ -54,11 +106,16 @@ theorem parseTag_quiet (tb : Tables) (r r1 : R) (t : Tag) (hq : ¬ Reads t) (h :
   · exact hs
   · exact absurd hr hq
 
+/-- ... and the record stays what the random-access decoder computes -/
+theorem parseTag_quiet_exact {tb : Tables} {ex0 : Rec} {F : Bytes} (r r1 : R) (t : Tag) (hq : ¬ Reads t) (he : Exact tb ex0 F r)
+    (h : parseTag tb r t = .ok r1) : Exact tb ex0 F r1 :=
+  ⟨by rw [(parseTag_quiet tb r r1 t hq h).reads]; exact he.reads, parse_step he h (parseTagV_quiet t hq _ _ _ _ tb r.ex)⟩
+
 /-- **Forward layouts are read exactly.**  From any coherent reader whose pending tags (from the current position on)
 form a forward chain of value tags, the work loop ends with a coherent reader whose read record is exact: no read failed,
 and every value handed to a field parser is exactly the bytes the tag points at. -/
-theorem ifdLoop_forward {F : Bytes} (tb : Tables) : ∀ (f : Nat) (r r' : R), Coh F r → Exact F r →
-    Chain F r.exifLength (readLimit r) r.po (r.tags.drop r.pos) → ifdLoop tb f r = .ok r' → Coh F r' ∧ Exact F r' := by
+theorem ifdLoop_forward {F : Bytes} {ex0 : Rec} (tb : Tables) : ∀ (f : Nat) (r r' : R), Coh F r → Exact tb ex0 F r →
+    Chain F r.exifLength (readLimit r) r.po (r.tags.drop r.pos) → ifdLoop tb f r = .ok r' → Coh F r' ∧ Exact tb ex0 F r' := by
   intro f
   induction f with
   | zero => intro r r' _ _ _ h; unfold Exif.ifdLoop at h; cases h
@@ -78,7 +135,7 @@ theorem ifdLoop_forward {F : Bytes} (tb : Tables) : ∀ (f : Nat) (r r' : R), Co
       obtain ⟨r1, h1, h⟩ := bind_ok h
       have hp := parseTag_forward tb r r1 _ hc he hfw hF hx hlim h1
       obtain ⟨hc1, he1, hpo1, htags, hpos, hexl, hl1⟩ := hp
-      apply ih { r1 with pos := r1.pos + 1 } r' ⟨hc1.rest, hc1.le, hc1.small⟩ he1 _ h
+      apply ih { r1 with pos := r1.pos + 1 } r' ⟨hc1.rest, hc1.le, hc1.small⟩ ⟨he1.reads, he1.ref⟩ _ h
       show Chain F r1.exifLength (readLimit r1) r1.po (r1.tags.drop (r1.pos + 1))
       rw [hexl, hl1, htags, hpos]
       exact hq.mono hpo1
